@@ -165,7 +165,7 @@ var fragText = []string{
 	"<", ">", "\"", "'", "\r", "\n", "\r\n", "\x00", "\xff", "\U0001F600", " ",
 	"<b>", "</b>", "<x>", "</x>", "<br>", "<br/>", "<x/>", "<a>", "<a href=\"/\">", "</a>", "<i id=q>",
 	"<textarea>", "</textarea>", "<xmp>", "</xmp>", "<plaintext>", "<!--", "-->", "<?pi?>", "<![CDATA[", "]]>", "<!DOCTYPE html>",
-	"<my-x id=a>", "<my-y>", "</my-x>", "<B>", "<b", "</", "<title>", "</title>", "<svg>", "<math>", "<img src=x>", "<select>", "<table>", "<td>", "<img>", "<area>", "<img/>", "<a title=t>",
+	"<my-x id=a>", "<my-y>", "</my-x>", "<B>", "<b", "</", "<title>", "</title>", "<svg>", "<math>", "<img src=x>", "<select>", "<table>", "<td>", "<img>", "<area>", "<img/>", "<a title=t>", "<textarea/>", "<xmp/>", "<plaintext/>", "<b/>",
 }
 
 func c06Specs(c *run.Ctx) (named, subs []built) {
